@@ -454,6 +454,7 @@ package json
 //@   assume A-bytes: 0 <= scan.bytes && scan.bytes <= 4611686018427387904
 //@   modifies scan.step, scan.err, scan.endTop, scan.bytes, scan.parseState, elems(scan.parseState)
 //@   callsite[C16] step#1 every-byte-in-order-to-the-current-state: arg_c == data[rangeindex + 1] && arg_s == scan
+//@   callsite[C16] eof#1 every-byte-was-fed: rangeindex + 1 == len(data)
 //@   ensures[C16] accepted-means-complete: result == nil ==> scan.endTop
 //@   ensures[C16] rejected-is-the-recorded-error: result != nil ==> result == scan.err
 //@   ensures[C16] rejected-has-error: result != nil ==> scan.err != nil
@@ -497,6 +498,7 @@ package json
 //@   ensures[meta C06] truncated: result != nil ==> BufContent == old(BufContent)
 //@   callsite[C16] step#1 every-byte-in-order-to-the-current-state: arg_c == src[rangeindex + 1]
 //@   callsite[C15] WriteByte#3 line-separator-escape-ends-with-8-or-9: (src[rangeindex + 3] == 168 ==> arg_c == '8') && (src[rangeindex + 3] == 169 ==> arg_c == '9')
+//@   callsite[C16] eof#1 every-byte-was-fed-unless-the-scan-is-dead: rangeindex + 1 == len(src) || scan.err != nil
 //@   ensures[C16] nothing-appended-when-rejected: result != nil ==> len(BufContent[dst]) == len(old(BufContent)[dst])
 //@   ensures[meta C16] accepts-iff-wf: (result == nil) <==> wf(src)
 //@   loop 1
@@ -552,6 +554,7 @@ package json
 //@   requires args: dst != nil
 //@   modifies ghost(BufContent)
 //@   callsite[C15,C16] step#1 every-byte-in-order-to-the-current-state: arg_c == src[rangeindex + 1]
+//@   callsite[C16] eof#1 every-byte-was-fed-unless-the-scan-is-dead: rangeindex + 1 == len(src) || scan.err != nil
 //@   callsite[C15] WriteByte#1 string-and-literal-bytes-verbatim: arg_c == c
 //@   callsite[C15] WriteByte#2 opening-bracket-verbatim: arg_c == c
 //@   callsite[C15] WriteByte#3 comma-verbatim: arg_c == c
